@@ -273,7 +273,10 @@ def build():
                               "by TLC trace specifications (code->spec)",
         }],
         "checks": checks,
-        "notes": "See DESIGN.md. Exit 2 from a check means machinery failure, never a property verdict.",
+        "notes": ("See DESIGN.md. Exit 2 from a check means machinery failure, never a property verdict. Beyond the listed properties the specification also "
+                  "covers proposal-width / step-size adaptation and the direction schedule (./check adaptation), the region look-up of the kernel "
+                  "estimator (./check regiongroups), the diagnostics counters and exchange statistics (./check bookkeeping), the progress display "
+                  "(./check progress); ./check selftest corrupts accepted traces and requires every trace specification to reject them."),
         "not_applicable": na,
     }
     return m
